@@ -85,6 +85,7 @@ var c04Pool = []kval{
 	{"k_fnhc", func() interface{} { return func(h NamedHelperContext) string { return "hc" } }},     // parameter convertible to, but not assignable from, plush.HelperContext
 	{"k_fnwide", func() interface{} { return func(h WideHelperContext) string { return "wide" } }},  // an interface that plush.HelperContext does not satisfy although it embeds the helper-context methods
 	{"k_fnphc", func() interface{} { return func(h *plush.HelperContext) string { return "phc" } }}, // pointer to the helper context: implements the interface, neither assignable nor convertible
+	{"k_pit", func() interface{} { return &PanicIter{} }},                // an Iterator whose Next panics on its second call
 	{"k_embs", func() interface{} { return WithNilStringer{} }},                                     // String() promoted through a nil embedded pointer
 	{"k_embsi", func() interface{} { return &WithNilStringerIface{} }},                              // String() of a nil embedded interface
 	{"k_fnhc2", func() interface{} {
@@ -163,7 +164,7 @@ func init() {
 	engine.Register(&engine.Prop{
 		ID: "C04",
 		Shards: func(th bool) []string {
-			s := []string{"unary", "index", "member", "for", "userfn", "context", "poly"}
+			s := []string{"unary", "index", "member", "for", "userfn", "context", "poly", "keywords"}
 			for _, op := range c04Ops {
 				s = append(s, "bin:"+op)
 			}
@@ -181,7 +182,7 @@ func init() {
 			return s
 		},
 		Run:  c04Run,
-		Rule: "matrices over a pool of 61 injected value kinds (nil, bools, every int/uint/float width, strings, HTML, slices/arrays/pointers to them, maps of 5 key/value typings, nil map/slice/pointer/func, struct, funcs incl. variadic, iterator, chan, time, error) plus 11 expression-produced kinds (user function object, its call, slice+x, array/hash literal, literals, unknown identifier): (operator x L x R), !L / if(L) / emission / silent statement, L[I] (+ .Field/.Method tails), L[I]=V (all triples), member and method access incl. nil receivers, for over L, L(args<=3), user functions with p params x a args (0..4), and every built-in helper taken from plush.Helpers at run time x argument lists of length <=2 (+block, +options map). Oracle: (out,nil) or (\"\",err); no panic, no step-budget exhaustion, no worker crash. All cases are non-trivial (each is a distinct kind combination). (context) 12 programs rendered with a foreign hctx.Context (helptest) and with NewContextWith(nil). (poly) one field / method / indexed path node evaluated with receivers of different struct types (mixed slice, consecutive executions of one parsed template).",
+		Rule: "matrices over a pool of 61 injected value kinds (nil, bools, every int/uint/float width, strings, HTML, slices/arrays/pointers to them, maps of 5 key/value typings, nil map/slice/pointer/func, struct, funcs incl. variadic, iterator, chan, time, error) plus 11 expression-produced kinds (user function object, its call, slice+x, array/hash literal, literals, unknown identifier): (operator x L x R), !L / if(L) / emission / silent statement, L[I] (+ .Field/.Method tails), L[I]=V (all triples), member and method access incl. nil receivers, for over L, L(args<=3), user functions with p params x a args (0..4), and every built-in helper taken from plush.Helpers at run time x argument lists of length <=2 (+block, +options map). Oracle: (out,nil) or (\"\",err); no panic, no step-budget exhaustion, no worker crash. All cases are non-trivial (each is a distinct kind combination). (context) 12 programs rendered with a foreign hctx.Context (helptest) and with NewContextWith(nil). (poly) one field / method / indexed path node evaluated with receivers of different struct types (mixed slice, consecutive executions of one parsed template). (keywords) 14 tokens that start no expression in 19 expression positions (hash key / value, array element, argument, index, assignment value, operand, condition, iterable).",
 		Bound: func(th bool) string {
 			if th {
 				return "all matrices complete; plus one level of nesting (L op R) op' X for every operator pair over the pool"
@@ -219,6 +220,16 @@ func c04Run(t *engine.T, shard string) {
 			`<%= mk().Kids[0].Name %>`, `<% let a = [1, 2] %><% a[0] = 3 %><%= a %>`, `<% let f = fn(x) { return x + 1 } %><%= f(1) %>`,
 			`<%= if (s) { %>y<% } else { %>n<% } %>`, `<%= s + "x" %>|<%= xs[1] %>`, `<% let h = {"k": 1} %><%= h["k"] %>`, `<%= nope %>`,
 		}
+		t.Case("context BuffaloRenderer with nil data", true, func() (string, *engine.Fail) {
+			out, err := plush.BuffaloRenderer(`a<%= h() %>b`, nil, map[string]interface{}{"h": func() string { return "H" }})
+			if f := Totality(out, err); f != nil {
+				return "", f
+			}
+			if err != nil || out != "aHb" {
+				return "", engine.Failf("mismatch", "expected aHb, got %q / %v", out, err)
+			}
+			return "ok", nil
+		})
 		for _, src := range srcs {
 			src := src
 			for _, kind := range []string{"helptest", "nil-map"} {
@@ -251,6 +262,20 @@ func c04Run(t *engine.T, shard string) {
 					}
 					return "ok", nil
 				})
+			}
+		}
+	case "keywords":
+		// a keyword (or other token that starts no expression) in an expression position: a syntax error or a
+		// run-time error, never a panic on the nil the parser is left with
+		kws := []string{"let", "return", "in", "else", "break", "continue", "%>", ")", "]", "}", ",", ":", "=", "=="}
+		holes := []struct{ pre, post string }{
+			{`<%= {`, `: 1} %>`}, {`<%= {"a": `, `} %>`}, {`<%= {"a": 1, `, `: 2} %>`}, {`<% let h = {`, `: 1} %><%= h %>`}, {`<%= [`, `] %>`}, {`<%= [1, `, `] %>`},
+			{`<%= len(`, `) %>`}, {`<%= k_si[`, `] %>`}, {`<% k_si[0] = `, ` %>`}, {`<% let q = `, ` %>`}, {`<%= 1 + `, ` %>`}, {`<%= `, ` + 1 %>`}, {`<%= !`, ` %>`},
+			{`<%= if (`, `) { %>x<% } %>`}, {`<%= for (v) in `, ` { %>x<% } %>`}, {`<% let f = fn() { return {`, `: 1} } %><%= f() %>`}, {`<%= {(`, `): 1} %>`}, {`<%= uf(`, `) %>`}, {`<%= k_pst.Add(`, `) %>`},
+		}
+		for _, kw := range kws {
+			for _, h := range holes {
+				c04Case(t, "keyword", P+h.pre+kw+h.post)
 			}
 		}
 	case "poly":
